@@ -290,7 +290,7 @@ def one(ctx, rng, k):
 
 def run_shard(ctx):
     logging.disable(logging.CRITICAL)
-    for k in range(ctx.n(2000, 80000)):
+    for k in range(ctx.n(1200, 80000)):
         if ctx.out_of_time():
             break
         ctx.guarded(one, ctx, ctx.rng, k, timeout=60)
